@@ -164,17 +164,27 @@ class Source:
 class State:
     def __init__(self):
         self.pc = []
-        self.env = {}
+        self.frames = [{}]  # call stack of local environments; env = frames[-1]
+        self.gen_stack = []  # frames of generators suspended at a yield
         self.log = []
         self.ghost = {}
         self.notes = []
         self.depth = 0
 
+    @property
+    def env(self):
+        return self.frames[-1]
+
+    @env.setter
+    def env(self, e):
+        self.frames[-1] = e
+
     def fork(self):
         s = State()
         memo = {}
         s.pc = list(self.pc)
-        s.env = _clone(self.env, memo)
+        s.frames = [_clone(f, memo) for f in self.frames]
+        s.gen_stack = [_clone(f, memo) for f in self.gen_stack]
         s.log = list(self.log)
         s.ghost = _clone(self.ghost, memo)
         s.notes = list(self.notes)
@@ -313,6 +323,11 @@ class Executor:
             return True
         except Exception:
             return False
+
+    def truthy(self, v, st):
+        if hasattr(v, "__pyvc_truthy_st__"):
+            return v.__pyvc_truthy_st__(self, st)
+        return v_truthy(v)
 
     def raise_(self, cls, st, *args):
         return Exc(ExcVal(cls, args), st)
@@ -528,7 +543,7 @@ class Executor:
             if isinstance(r, Exc):
                 outs.append(self._exc_out(r))
                 continue
-            t, f = self.split(v_truthy(r.v), r.st)
+            t, f = self.split(self.truthy(r.v, r.st), r.st)
             if t is not None:
                 outs.append(Outcome("fall", None, t))
             if f is not None:
@@ -541,7 +556,7 @@ class Executor:
             if isinstance(r, Exc):
                 outs.append(self._exc_out(r))
                 continue
-            cond = v_truthy(r.v)
+            cond = self.truthy(r.v, r.st)
             base_pc_len = len(r.st.pc)
             base_log_len = len(r.st.log)
             base_env = dict(r.st.env)
@@ -761,49 +776,42 @@ class Executor:
 
     def run_generator(self, fr, args, kwargs, st, consume, bound_self=None):
         """Execute generator function fr; for each yielded value call
-        consume(value, state) -> list[Outcome] in the caller's scope
+        consume(value, state) -> list[Outcome] in the caller's frame
         ('fall' => resume the generator; anything else leaves the for statement).
-        Returns Outcomes: 'fall' (generator exhausted), 'break', or propagated return/raise."""
-        caller_env = st.env
+        Returns Outcomes: 'fall' (generator exhausted), or the propagated break/return/raise."""
 
         def consumer(v, s):
-            gen_env = s.env
-            s.env = gen_env["__caller_env__"]
+            s.gen_stack.append(s.frames.pop())  # suspend the generator frame
             res = []
             for o in consume(v, s):
                 if o.kind == "fall":
-                    gen_env["__caller_env__"] = o.st.env
-                    o.st.env = gen_env
+                    o.st.frames.append(o.st.gen_stack.pop())  # resume
                     res.append(o)
                 else:
+                    o.st.gen_stack.pop()  # generator abandoned
                     res.append(Outcome("propagate", o, o.st))
             return res
 
-        outs, saved = self.run_function_raw(
-            fr, args, kwargs, st, bound_self, extra_env={"__consumer__": consumer, "__caller_env__": caller_env}
-        )
+        outs = self.run_function_raw(fr, args, kwargs, st, bound_self, extra_env={"__consumer__": consumer})
         final = []
         for o in outs:
             if o.kind == "return":
-                o.st.env = o.st.env.get("__caller_env__", caller_env)
                 final.append(Outcome("fall", None, o.st))
             elif o.kind == "raise":
-                o.st.env = o.st.env.get("__caller_env__", caller_env)
                 final.append(o)
             elif o.kind == "propagate":
                 final.append(o.value)
         return final
 
     def run_function_raw(self, fr, args, kwargs, st, bound_self=None, extra_env=None):
-        """Execute the body of fr. Returns (list of Outcome with kind
-        return/raise/propagate, the caller's env)."""
+        """Execute the body of fr in a new frame. Returns Outcomes of kind
+        return/raise (frame popped) or propagate (left through a yield consumer)."""
         node = fr.node
         saved_file = getattr(self, "_cur_file", "?")
-        saved_env = st.env
         env = self.bind_args(fr, args, kwargs, bound_self)
         if extra_env:
             env.update(extra_env)
-        st.env = env
+        st.frames.append(env)
         st.depth += 1
         self._cur_file = getattr(fr.module, "__file__", "?")
         body = _strip_doc(node.body)
@@ -812,13 +820,17 @@ class Executor:
         for o in outs:
             o.st.depth -= 1
             if o.kind == "fall":
+                o.st.frames.pop()
                 res.append(Outcome("return", None, o.st))
-            elif o.kind in ("return", "raise", "propagate"):
+            elif o.kind in ("return", "raise"):
+                o.st.frames.pop()
+                res.append(o)
+            elif o.kind == "propagate":
                 res.append(o)
             else:
                 raise Unsupported(f"{o.kind} escaped function {fr.qualname}")
         self._cur_file = saved_file
-        return res, saved_env
+        return res
 
     def bind_args(self, fr, args, kwargs, bound_self=None):
         node = fr.node
@@ -871,14 +883,12 @@ class Executor:
         if _is_generator(fr.node):
             return [Val(GenCall(fr, args, kwargs, bound_self), st)]
         self.stats["inlined"] += 1
-        outs, saved_env = self.run_function_raw(fr, args, kwargs, st, bound_self)
+        outs = self.run_function_raw(fr, args, kwargs, st, bound_self)
         res = []
         for o in outs:
             if o.kind == "return":
-                o.st.env = saved_env
                 res.append(Val(o.value, o.st))
             elif o.kind == "raise":
-                o.st.env = saved_env
                 res.append(Exc(o.value, o.st))
             else:
                 raise Unsupported("propagate out of plain call")
@@ -1003,7 +1013,7 @@ class Executor:
             if isinstance(r, Exc):
                 out.append(r)
             elif isinstance(node.op, ast.Not):
-                t = b_not(v_truthy(r.v))
+                t = b_not(self.truthy(r.v, r.st))
                 out.append(Val(V._wrapb(t), r.st))
             elif isinstance(node.op, ast.USub):
                 out.append(Val(v_neg(r.v), r.st))
@@ -1024,7 +1034,7 @@ class Executor:
                 if i == len(node.values) - 1:
                     out.append(r)
                     continue
-                t = v_truthy(r.v)
+                t = self.truthy(r.v, r.st)
                 if isinstance(t, bool):
                     if t == is_and:
                         out.extend(go(i + 1, r.st))
@@ -1067,7 +1077,7 @@ class Executor:
             if isinstance(r, Exc):
                 out.append(r)
                 continue
-            t, f = self.split(v_truthy(r.v), r.st)
+            t, f = self.split(self.truthy(r.v, r.st), r.st)
             if t is not None:
                 out.extend(self.eval(node.body, t))
             if f is not None:
@@ -1104,6 +1114,9 @@ class Executor:
             return a is b
         if isinstance(op, ast.IsNot):
             return b_not(self.compare(ast.Is(), a, b, st, node))
+        if isinstance(op, (ast.In, ast.NotIn)) and hasattr(b, "member"):
+            r = b.member(self, a, st)
+            return r if isinstance(op, ast.In) else b_not(r)
         if isinstance(op, ast.In):
             return v_contains(a, b)
         if isinstance(op, ast.NotIn):
